@@ -24,10 +24,10 @@ CONFIG = {
              'path in a directory that does not exist yet) - each for build and for clean; oracle: if the call raised '
              'and no user function was entered, the tree incl. the cache file is bit-identical (bytes, mtime_ns, inode), '
              'the library issued no mutating file-system event outside the private temp dir and left nothing in it; '
-             'calls the library accepts (e.g. a flipped gzip MTIME byte) are counted, not judged - except truncations, other build names (incl. near misses of the stored name: empty, prefix, case, padding), wrong-typed arguments and a directory at the cache path: accepting those is a violation; evaluations = refused '
+             'calls the library accepts (e.g. a flipped gzip MTIME byte) are counted, not judged - except truncations, other build names (incl. near misses of the stored name: empty, prefix, case, padding), wrong-typed arguments and a directory at the cache path: accepting those is a violation; a sample of the refused corruptions is repeated after the process has just read the valid file (a refused other-name call) with the corrupted file keeping the valid file\'s timestamp: the refusal must not depend on process history; evaluations = refused '
              'calls judged; distinct_nontrivial = distinct (corruption class, API, exception class)'),
     'gates': ['refused', 'refused:build', 'refused:clean', 'class:truncate', 'class:bitflip', 'class:json_shape',
-              'class:wrong_type_arg', 'class:name_mismatch', 'class:cache_is_dir', 'accepted'],
+              'class:wrong_type_arg', 'class:name_mismatch', 'class:cache_is_dir', 'accepted', 'primed_attempts'],
 }
 
 
@@ -222,6 +222,34 @@ def run_shard(sh):
                     if r != 'refused':
                         # accepted (undefined territory) or violated: continue from a pristine copy
                         w.restore(tok, keep=True)
+                    elif rng.random() < 0.3 and len(data) > 0:
+                        # history independence: the same bytes must be refused again when the process has
+                        # just read the VALID file successfully (a refused other-name call) and the
+                        # corruption keeps the file's timestamp (and, for bit flips, its size): a refusal
+                        # may not depend on what the process saw before
+                        restore_cache()
+                        try:
+                            FileBuilder.build(cache, name + '-other', lambda b: None)
+                        except Exception:
+                            pass
+                        with open(cache, 'wb') as f:
+                            f.write(data)
+                        os.utime(cache, ns=(good_mtime, good_mtime))
+                        sh.count('primed_attempts')
+                        if api == 'build':
+                            r2 = attempt(sh, w, cls, label + '|primed', api,
+                                         lambda root: FileBuilder.build(cache, name, root), program)
+                        else:
+                            r2 = attempt(sh, w, cls, label + '|primed', api,
+                                         lambda root: FileBuilder.clean(cache, name), program)
+                        if r2 == 'accepted':
+                            sh.evaluations += 1
+                            sh.violation('refusal_depends_on_process_history|%s|%s' % (api, cls),
+                                         {'label': label, 'first': r, 'after_priming_read': r2},
+                                         {'kind': 'c15', 'class': cls, 'label': label, 'api': api, 'program': program,
+                                          'steps': list(w.steps), 'cache_rel': w.cache_rel})
+                        if r2 != 'refused':
+                            w.restore(tok, keep=True)
             w.restore(tok)
             if True:
                 restore_cache()
